@@ -14,7 +14,7 @@ func init() {
 		Cases: func(tier string) []Case {
 			var cases []Case
 			texts := c18Texts("quick")
-			step := 6
+			step := 2
 			if tier == "thorough" {
 				texts = c18Texts("thorough")
 				step = 5
@@ -68,7 +68,7 @@ func init() {
 			}
 			for ri, r := range runs {
 				chans := []string{"raw", "stdin", "files"}
-				if ri < 4 || ri == 7 || ri == 8 || tier == "thorough" {
+				if ri >= 0 { // every script through every channel combination in both tiers
 					chans = append(chans, "path+stdin", "files+stdin-vars", "raw+files", "path+raw")
 				}
 				for _, ch := range chans {
@@ -79,7 +79,7 @@ func init() {
 			return cases
 		},
 		Bounds: stdBounds(
-			map[string]interface{}{"check": "every 6th text of the C18 quick corpus + 15 valid / warning-only scripts", "run": "16 scripts x 3 input channels + 12 scripts failing with one error class each (4 of them also through 4 mixed channels: script path + stdin, files + variables on stdin, raw + files, path + raw), JSON output; balances, numbers and monetary amounts symbolic (beyond 2^64 included)"},
+			map[string]interface{}{"check": "every 2nd text of the C18 quick corpus + 15 valid / warning-only scripts", "run": "13 scripts x 7 channel combinations + 12 scripts failing with one error class each (formerly: 4 of them also through 4 mixed channels: script path + stdin, files + variables on stdin, raw + files, path + raw), JSON output; balances, numbers and monetary amounts symbolic (beyond 2^64 included)"},
 			map[string]interface{}{"check": "every 5th text of the C18 thorough corpus", "run": "15 scripts x 7 channels"}),
 		Assumptions: []string{
 			"SCOPED CLAIM: the command functions check() and run() are executed, not the process: cobra flag parsing, main()'s recover/sentry wrapper and the real exit status of the binary are outside",
